@@ -90,6 +90,14 @@ Theorem C04_file_decodes_entry : forall g, vgeom_ok g -> forall im w h sz l,
   decode_file g im (first_field h) sz = content fstore w l sz.
 Proof. exact decode_file_static. Qed.
 
+(* [decode_file] IS the content the tree decoder [Abs.decode_entries] attaches to a file entry with that first cluster and size *)
+Theorem C04_file_decodes_node : forall g im d e,
+  e_is_dot e = false -> e_is_dir e = false ->
+  decode_entries g im (S d) [e] =
+  [NFile e (if e_cluster e =? 0 then None else chain_from g im (e_cluster e) (Abs.chain_fuel g))
+           (decode_file g im (e_cluster e) (e_size e))].
+Proof. exact decode_file_is_node. Qed.
+
 (* any history on a handle, run by the image-level machine [vol_run] (FileM over the FAT slice of the image, FAT entry
    writes in every mirrored copy at their device offsets, data written through at g_cluster_off g c + offset):
    the outcomes are a run of the byte-array machine whose state IS what the decoder reads from the image *)
@@ -135,6 +143,10 @@ Proof. exact vol_extents_spec. Qed.
    empty file, and a history that puts 6 bytes across clusters 2 and 3 is decoded from the raw bytes *)
 Example C04_file_decodes_example_hyps : vgeom_ok ex_g /\ VolInv ex_g ex_im ex_fi empty_file 0 [] /\ Forall op_ok ex_ops.
 Proof. exact (conj ex_geom_ok (conj ex_vol_inv ex_ops_ok)). Qed.
+(* ... and on a non-trivial state: after that history the ghosts are size 515 and chain [2; 3] *)
+Example C04_file_decodes_example_state :
+  VolInv ex_g ex_im' ex_fi' ex_h' 515 [2; 3] /\ Embeds ex_g ex_im' (world_of ex_g ex_im' ex_fi').
+Proof. exact (conj ex_vol_inv_final (embeds_world_of ex_g ex_im' ex_fi')). Qed.
 Example C04_file_decodes_example :
   let '(st, rs) := vol_run ex_g (ex_im, ex_fi, empty_file) ex_ops in
   let '(im', fi', h') := st in
@@ -157,6 +169,7 @@ Print Assumptions C04_short_name_render_agrees.
 Print Assumptions C04_extents_reproduce_content.
 Print Assumptions C04_file_decodes_static.
 Print Assumptions C04_file_decodes_entry.
+Print Assumptions C04_file_decodes_node.
 Print Assumptions C04_file_decodes_run.
 Print Assumptions C04_file_decodes_replay.
 Print Assumptions C04_file_decodes_extents.
